@@ -8,7 +8,7 @@ from .. import env, core, par
 PID = "C18"
 LEVEL = "exploration"
 RULE = ("Hypothesis-generated sequences of 1..30 operations on one Module or one Bundle: setattr(name, value), add(value), "
-        "add(value, name=), re-adding an attribute under its own name, assigning an already-held object under a second name, assigning a held object to another module too and handing it back by re-adding it, get(name), attribute read, and negative operations (reserved "
+        "add(value, name=), re-adding an attribute under its own name, assigning an already-held object under a second name (which moves it), assigning a held object to another module too and handing it back by re-adding it, get(name), attribute read, and negative operations (reserved "
         "names, non-HDL values, delattr, sub-classing, add with both / neither name, additions after elaboration), names drawn from "
         "{a,b,c,d,e}, values of every attribute kind (signal, signal with a direction but no port visibility, each port direction, "
         "instance, array, instance bundle - of port-less cells - and bundle instance; for Bundles: signal, bundle instance). After "
@@ -17,8 +17,8 @@ RULE = ("Hypothesis-generated sequences of 1..30 operations on one Module or one
         "negative operations raise and change nothing. At the end the module is exported and must list exactly the model's signals, "
         "ports and instances, and the same content defined class-style - with underscore-named HDL and non-HDL temporaries in the class body - must have the same names and export the same package. Non-trivial = a name re-used for "
         "an object of another kind; distinct by canonical operation list.")
-ASSUME = ["one object assigned under two names is generated (alias op) and must keep every per-name statement true, but what a module "
-          "still holding such an object (under two names, or under a name it no longer reports) at the end exports as is not asserted",
+ASSUME = ["assigning an already-held object under a second name moves it there ('each name denotes exactly one object' and an object reports "
+          "one name): the first name must be gone from namespace and views",
           "add(value, name='ports') style reserved names through add() and additions to a Bundle after 'elaboration' are recorded, not asserted"]
 
 NAMES = ["a", "b", "c", "d", "e"]
@@ -153,9 +153,9 @@ def run_case(case):
                 if src in modelmap and src != dst:
                     if dst in modelmap and modelmap[dst][0] != modelmap[src][0]:
                         reused_other_kind = True
-                    setattr(obj, dst, modelmap[src][1])  # the same object under a second name (it now reports the name dst)
-                    modelmap[dst] = modelmap[src]
-                    notes.append("aliased")
+                    setattr(obj, dst, modelmap[src][1])  # an attribute has one name: the object moves from src to dst
+                    modelmap[dst] = modelmap.pop(src)
+                    notes.append("moved_to_second_name")
             elif t == "lend":
                 # the object is also assigned to ANOTHER module (which now claims it) - and may be handed back by a later readd
                 name = op[1]
